@@ -192,6 +192,25 @@ def run(R):
                 for alt_name, alt in (('one-byte-appended', sig + b'\x00'), ('doubled', sig + sig), ('message-appended', sig + msg[:8] + b'x'), ('last-byte-dropped', sig[:-1]),
                                       ('first-half', sig[:32]), ('empty', b''), ('all-zero', bytes(64))):
                     R.check(rejected(pub, msg, alt), f'altered-signature-accepted-{alt_name}', f'altered signature ({alt_name}, {len(alt)} bytes) verifies', W)
+                # bytes moved across the boundary between signature and message: (signature || message) is the same string, the pair is another one
+                for k in (1, 2, 7, 31):
+                    if n >= k:
+                        R.check(rejected(pub, msg[k:], sig + msg[:k]), 'altered-signature-accepted-message-prefix-moved-into-signature',
+                                f'(signature + first {k} message bytes, rest of the message) verifies', dict(W, k=k))
+                    R.check(rejected(pub, sig[64 - k:] + msg, sig[:64 - k]), 'altered-signature-accepted-signature-tail-moved-into-message',
+                            f'(first {64 - k} signature bytes, last {k} signature bytes + message) verifies', dict(W, k=k))
+                    R.count('signature_negatives', 2)
+                # the optional encoder argument encodes the detached signature; decoding gives the raw one back
+                import nacl.encoding as _enc
+                for E in (_enc.RawEncoder, _enc.HexEncoder, _enc.Base16Encoder, _enc.Base32Encoder, _enc.Base64Encoder, _enc.URLSafeBase64Encoder):
+                    st, es = mon.call(signature.sign_message, msg, sk64, E)
+                    if st == 'exc':
+                        R.violation(f'sign-raises-encoder-{E.__name__}', f'sign_message(..., encoder={E.__name__}) raised {es!r}', W)
+                        continue
+                    st2, raw = mon.call(E.decode, es)
+                    R.check(st2 == 'ok' and raw == sig and es == E.encode(sig), f'encoded-signature-{E.__name__}',
+                            f'sign_message with {E.__name__} is not the encoding of the detached signature (so it cannot verify under the matching key)', dict(W, encoder=E.__name__))
+                    R.count('encoded_signatures')
                 R.count('signature_negatives', 11)
                 if n in (32, 100) or not quick:
                     bad = 0
@@ -260,6 +279,7 @@ def run(R):
     R.floor('pairs_equal', 2)
     R.floor('post_encrypt', 100)
     R.floor('signature_bitflips', 512)
+    R.floor('encoded_signatures', 30)
     R.floor('mnemonics', 5)
     R.floor('derivations', 2)
     R.floor('second_identity_pairs', 5)
